@@ -1,4 +1,5 @@
 import Dia.ClientThm
+import Dia.ClientMultiThm
 /-! # C12 - Every response future eventually completes. Property theorems only.
 Liveness is stated as safety over terminal states: the reader's stop step is the only step that matters, and it
 resolves everything at once; a future can stay pending only while the reader runs and its waiter is still
@@ -68,3 +69,58 @@ example : ∃ s, run init [.sendBegin 7, .write, .peerEmit (.msg ⟨7, 0⟩), .r
   refine ⟨_, rfl, ?_, ?_⟩ <;> decide
 
 end Dia.Cl
+
+/-! ## One client object, several connections (`connect()` called again)
+`Dia/ClientMulti.lean`: all connections of a `DiameterClient` share one table and one `closed` flag. -/
+namespace Dia.Cm
+open Dia.Cl (Msg WStatus Item Reader SendPhase upd)
+
+/-- **C12 for a client with any number of connections.** Once the reader of *any* connection has stopped, the shared
+table is closed and empty, and a future can be unresolved only because the reader of another connection has already
+taken its waiter out of the table and is about to hand it the answer - whichever connection the request was written
+to, and whichever connection's reader stopped. -/
+theorem C12_multi_stopped (ls : List Label) (s : St) (h : run init ls = some s) (c : Nat)
+    (hs : s.reader c = .stopped) :
+    s.closed = true ∧ (∀ hb, s.cache hb = none) ∧
+    ∀ w, w < s.nW → s.status w = .pending → ∃ c' m, c' ≠ c ∧ s.reader c' = .removed m w := by
+  have hi := inv_run ls inv_init h
+  have hc := hi.stopped_ok c hs
+  refine ⟨hc, hi.closed_ok hc, fun w hw hp => ?_⟩
+  rcases hi.pending_ok w hw hp with h1 | ⟨c', m, hm⟩
+  · rw [hi.closed_ok hc] at h1; cases h1
+  · refine ⟨c', m, fun e => ?_, hm⟩
+    subst e; rw [hs] at hm; cases hm
+
+/-- ... and that hand-over cannot get stuck: the delivery step of such a reader is enabled in every state and resolves
+the future with the answer. -/
+theorem C12_multi_delivery_enabled (s : St) (c : Nat) (m : Msg) (w : Nat) (hr : s.reader c = .removed m w) :
+    ∃ s', step s (.readerDeliver c) = some s' ∧ s'.status w = .got m := by
+  refine ⟨_, by simp only [step, hr]; rfl, ?_⟩
+  simp [upd]
+
+/-- so when every reader is at rest (none in the middle of a delivery) and one of them has stopped, no future is pending -/
+theorem C12_multi_quiescent (ls : List Label) (s : St) (h : run init ls = some s) (c : Nat)
+    (hs : s.reader c = .stopped) (hq : ∀ c' m w, s.reader c' ≠ .removed m w) :
+    ∀ w, w < s.nW → s.status w ≠ .pending := by
+  intro w hw hp
+  obtain ⟨c', m, _, hm⟩ := (C12_multi_stopped ls s h c hs).2.2 w hw hp
+  exact hq c' m w hm
+
+/-- once closed, always refused: a later `connect()` does not re-open the table (the code never resets `closed`), so
+no send after a stop - on the old or on a new connection - creates a waiter that nobody will release -/
+theorem C12_multi_send_after_stop (ls : List Label) (s : St) (h : run init ls = some s) (c : Nat)
+    (hs : s.reader c = .stopped) (ls2 : List Label) (s2 : St) (h2 : run s ls2 = some s2) (hidle : s2.send = .idle)
+    (hb : Nat) : s2.closed = true ∧ step s2 (.sendBegin hb) = some s2 := by
+  have hi := inv_run ls inv_init h
+  have hi2 := inv_run ls2 hi h2
+  have hc2 := closed_run ls2 h2 (hi.stopped_ok c hs)
+  refine ⟨hc2, ?_⟩
+  simp [step, hidle, hc2]
+
+/-- non-vacuity, and the switch-over history itself: a request is outstanding on connection 0 when connection 1 is
+attached; connection 0 ends; the request's future is resolved (with an error), connection 1 never said a word -/
+example : ∃ s, run init [.connect, .sendBegin 501, .write, .sendReturn, .connect, .peerEmit 0 .bad, .readerDecode 0,
+    .readerStop 0] = some s ∧ s.reader 0 = .stopped ∧ s.reader 1 = .running ∧ s.status 0 = .dropped ∧ s.nC = 2 := by
+  refine ⟨_, rfl, ?_, ?_, ?_, ?_⟩ <;> decide
+
+end Dia.Cm
